@@ -110,3 +110,19 @@ pub assume_specification[ str::repeat ](s: &str, n: usize) -> (r: String)
     ensures
         r@ == repeat_seq(s@, n as nat),
 ;
+
+#[verifier::external_type_specification]
+#[verifier::external_body]
+pub struct ExStrLines<'a>(core::str::Lines<'a>);
+
+/// str::lines (std docs): split at '\n', one trailing '\r' stripped per line, a final empty line dropped
+pub assume_specification<'a>[ str::lines ](s: &'a str) -> (r: core::str::Lines<'a>)
+    ensures
+        iter_strs(r) == lines_of(s@),
+;
+
+pub assume_specification<'a, P: core::str::pattern::Pattern>[ str::ends_with::<P> ](s: &'a str, pat: P) -> (r: bool)
+    where for<'b> P::Searcher<'b>: core::str::pattern::ReverseSearcher<'b>,
+    ensures
+        r == pk_ends_with(pat_kind(pat), s@),
+;
